@@ -1,4 +1,5 @@
 //! Shared pieces of the end-to-end monitors (real `VmPolicy` on the real `ClientState`).
+pub mod world;
 use aranya_runtime::{
     Policy, PolicyError, PolicyId, PolicyStore, Sink, VmEffect, VmPolicy,
 };
